@@ -598,6 +598,22 @@ class Bounder:
                 ok = False
             for b in pts:
                 found = False
+                # `if (err) return err;` is not a success return: the value handed back is known non-zero there
+                nonzero = False
+                for r_ in g.rets():
+                    rv = r_.ops[0] if r_.ops else None
+                    if rv is not None and rv.is_inst and rv.op == "phi" and rv.bb is r_.bb:
+                        rv = next((val for val, pr in zip(rv.ops, rv.x["inc"]) if pr is b), None)
+                    elif r_.bb is not b:
+                        rv = None
+                    if rv is None or rv.is_const:
+                        continue
+                    for cond, outcome, br in g.guards_at(b):
+                        if cond.is_inst and cond.op == "icmp" and cond.pred in ("eq", "ne") and _uncast(cond.ops[0]) is _uncast(rv) and \
+                                cond.ops[1].is_const and cond.ops[1].is_int and cond.ops[1].sval == 0 and outcome == (cond.pred == "ne"):
+                            nonzero = True
+                if nonzero:
+                    continue
                 for cond, outcome, br in g.guards_at(b):
                     if not (cond.is_inst and cond.op == "icmp"):
                         continue
